@@ -201,6 +201,9 @@ type Cluster struct {
 	byzGen          func(g *genState) *Step
 	observer        *SimNode
 	synthetic       bool
+	synthNears      [][2]string
+	refDag          *refDag
+	refFame         *refFame
 	recordWrites    bool
 	recorder        *recStore
 	curTask         *task
